@@ -49,6 +49,8 @@ Inv(o) == CASE o.op = "translate" -> [o EXCEPT !.v = NegP(o.v)]
 D2(p, q) == RAdd(RAdd(RMul(RSub(p[1], q[1]), RSub(p[1], q[1])), RMul(RSub(p[2], q[2]), RSub(p[2], q[2]))), RMul(RSub(p[3], q[3]), RSub(p[3], q[3])))
 
 Angles == { <<One, Zero>>, <<Zero, One>>, <<R(-1), Zero>>, <<Zero, R(-1)>>, <<Q(3, 5), Q(4, 5)>>, <<Q(3, 5), Q(-4, 5)>>, <<Q(-4, 5), Q(3, 5)>>, <<Q(5, 13), Q(12, 13)>>, <<Q(-12, 13), Q(-5, 13)>> }
+\* angles of about 0.0044 rad next to 0, pi/2 and pi (from the Pythagorean triple 900, 202499, 202501): a turn that small must still be made
+SmallAngles == { <<Q(202499, 202501), Q(900, 202501)>>, <<Q(202499, 202501), Q(-900, 202501)>>, <<Q(900, 202501), Q(202499, 202501)>>, <<Q(-202499, 202501), Q(900, 202501)>> }
 Axes   == { <<One, Zero, Zero>>, <<Zero, One, Zero>>, <<Zero, Zero, One>>, <<Q(2, 3), Q(2, 3), Q(1, 3)>>, <<Q(2, 7), Q(3, 7), Q(6, 7)>>, <<Zero, Q(3, 5), Q(-4, 5)>>, <<Q(-1, 3), Q(2, 3), Q(-2, 3)>>,
             <<R(-1), Zero, Zero>>, <<Zero, R(-1), Zero>>, <<Zero, Zero, R(-1)>>, <<Q(3, 5), Zero, Q(4, 5)>> }     \* negative coordinate axes, an axis in a coordinate plane
 =============================================================================
